@@ -464,7 +464,7 @@ func TestSearchMatchesReference(t *testing.T) {
 		cfg = vw.ThoroughConfig
 		perWorld = 40
 	}
-	evid.Check(t, 160, 800, func(t *rapid.T) {
+	evid.Check(t, 500, 1600, func(t *rapid.T) {
 		w := vw.Gen(t, cfg)
 		ix, err := w.Build()
 		if err != nil {
@@ -497,6 +497,18 @@ func TestSearchMatchesReference(t *testing.T) {
 				evid.R.Sample(true, map[string]any{"world": w.Describe(), "constraint": json.RawMessage(mustJSON(c)), "shape": shape})
 			}
 			if v != "" {
+				wd, _ := json.Marshal(w.Describe())
+				t.Fatalf("%s\n  world: %s", v, wd)
+			}
+		}
+		// targeted: visibility as of the exact instant of a visibility claim (the claim dated T counts at T)
+		for i, d := range g.visDates {
+			if i >= 3 {
+				break
+			}
+			c := &search.Constraint{Permanode: &search.PermanodeConstraint{SkipHidden: true, At: d}}
+			evid.R.Label("shape/targeted:skipHidden-at-visibility-claim-instant")
+			if v := r.checkConstraint(c, "targeted-skipHidden-at", func(n int, label string) []int { return []int{0} }); v != "" {
 				wd, _ := json.Marshal(w.Describe())
 				t.Fatalf("%s\n  world: %s", v, wd)
 			}
